@@ -6,7 +6,8 @@
 mod verif_c04 {
     use super::*;
     use crate::verif_stubs::*;
-    use crate::vm::verif_vm::bare_vm_with_strings;
+    use crate::memory::verif_mem::Placed;
+    use crate::vm::verif_vm::bare_vm;
 
     /// Compiler::patch_jump: code length symbolic (2..=70000), patch position symbolic.
     /// Ok  => the two operand bytes decode to the jump distance (and the distance fits in 16 bits);
@@ -35,18 +36,52 @@ mod verif_c04 {
         std::mem::forget(c);
     }
 
-    fn parser_with_code<'a>(vm: &'a mut Vm, scanner: &'a mut Scanner, len: usize) -> Parser<'a> {
-        let mut parser = Parser::new(vm, scanner, None);
-        // spare capacity: a push must not reallocate (Kani's realloc model copies the 66000-byte
-        // buffer element-wise and the query no longer finishes)
-        let mut code = vec![0u8; len + 16];
-        let mut lines = vec![0i32; len + 16];
+    /// `Parser::chunk` is stubbed in the Parser-level harnesses: it returns the chunk the harness keeps in a
+    /// typed local instead of `compilers.last_mut().unwrap().chunk`, which lives inside a heap buffer.
+    /// A pointer read back from an untyped heap block loses its identity in CBMC, and every write through
+    /// it becomes a symbolic-offset update of the 66000-byte code array (out of memory at 30 GB); through
+    /// the typed local the same writes are constant-index. Only the accessor is replaced, the functions
+    /// under test (emit_loop, patch_offset_at, make_constant, emit_byte, Chunk::write) are the real ones.
+    static mut KANI_CHUNK: *mut Chunk = std::ptr::null_mut();
+    impl<'a> Parser<'a> {
+        fn chunk_stub(&mut self) -> &mut Chunk {
+            unsafe { &mut *KANI_CHUNK }
+        }
+    }
+    fn chunk_with_code(len: usize) -> Chunk {
+        // spare capacity: a push must not reallocate; contents are never read except the bytes written
+        let mut code: Vec<u8> = Vec::with_capacity(len + 16);
         unsafe {
             code.set_len(len);
-            lines.set_len(len);
         }
-        parser.chunk().code = code;
-        parser.chunk().lines = lines;
+        Chunk {
+            code,
+            lines: Vec::new(),
+            constant_map: HashMap::with_hasher(random_state_stub()),
+            constants: Vec::new(),
+        }
+    }
+
+    /// A Parser assembled field by field (Parser::new interns two strings through the collector and the
+    /// intern table, neither of which the functions under test touch) whose current chunk has `len`
+    /// bytes of code.
+    fn bare_parser<'a>(vm: &'a mut Vm, scanner: &'a mut Scanner, module_path: Gc<ObjString>) -> Parser<'a> {
+        let mut parser = Parser {
+            current: Token::new(),
+            previous: Token::new(),
+            panic_mode: Cell::new(false),
+            single_target_mode: false,
+            scanner,
+            compilers: Vec::new(),
+            class_compilers: Vec::new(),
+            errors: RefCell::new(Vec::new()),
+            compiled_functions: Vec::new(),
+            module_path,
+            attributes: HashMap::new(),
+            attribute_opener: None,
+            vm,
+        };
+        parser.new_compiler(FunctionKind::Script, module_path, module_path);
         parser
     }
 
@@ -58,11 +93,16 @@ mod verif_c04 {
     #[kani::stub(std::collections::hash_map::RandomState::new, random_state_stub)]
     #[kani::stub(std::fmt::format, fmt_stub)]
     #[kani::stub(std::fmt::write, fmt_write_stub)]
+    #[kani::stub(Parser::chunk, Parser::chunk_stub)]
     fn c04_emit_loop_encodes_or_rejects() {
-        let mut vm = bare_vm_with_strings();
+        let mut vm = bare_vm();
         let mut scanner = Scanner::from_source(String::new());
-        let len: usize = 66000;
-        let mut parser = parser_with_code(&mut vm, &mut scanner, len);
+        let mut path = Placed::new(ObjString::new(Gc::dangling(), "m", 1));
+        let len: usize = kani::any();
+        kani::assume(len <= 70000);
+        let mut chunk = chunk_with_code(len);
+        unsafe { KANI_CHUNK = &mut chunk as *mut Chunk; }
+        let mut parser = bare_parser(&mut vm, &mut scanner, path.gc());
         let start: usize = kani::any();
         kani::assume(start <= len);
         parser.emit_loop(start);
@@ -77,6 +117,7 @@ mod verif_c04 {
         assert!(!had_error || dist > u16::MAX as usize, "only unencodable loops are rejected");
         std::mem::forget(parser);
         std::mem::forget(vm);
+        std::mem::forget(chunk);
     }
 
     /// Parser::patch_offset_at (try/catch/finally block sizes): same obligation.
@@ -85,15 +126,20 @@ mod verif_c04 {
     #[kani::stub(std::collections::hash_map::RandomState::new, random_state_stub)]
     #[kani::stub(std::fmt::format, fmt_stub)]
     #[kani::stub(std::fmt::write, fmt_write_stub)]
+    #[kani::stub(Parser::chunk, Parser::chunk_stub)]
     fn c04_patch_offset_encodes_or_rejects() {
-        let mut vm = bare_vm_with_strings();
+        let mut vm = bare_vm();
         let mut scanner = Scanner::from_source(String::new());
-        let len: usize = 66000;
-        let mut parser = parser_with_code(&mut vm, &mut scanner, len);
+        let mut path = Placed::new(ObjString::new(Gc::dangling(), "m", 1));
+        let len: usize = kani::any();
+        kani::assume(len >= 2 && len <= 70000);
+        let mut chunk = chunk_with_code(len);
+        unsafe { KANI_CHUNK = &mut chunk as *mut Chunk; }
+        let mut parser = bare_parser(&mut vm, &mut scanner, path.gc());
         let offset: usize = kani::any();
         kani::assume(offset <= len);
         let pos: usize = kani::any();
-        kani::assume(pos + 1 < len);
+        kani::assume(pos < len - 1);
         parser.patch_offset_at(pos, offset);
         let had_error = !parser.errors.borrow().is_empty();
         let enc = u16::from_ne_bytes([parser.chunk().code[pos], parser.chunk().code[pos + 1]]) as usize;
@@ -104,6 +150,48 @@ mod verif_c04 {
         assert!(!had_error || dist > u16::MAX as usize, "only unencodable sizes are rejected");
         std::mem::forget(parser);
         std::mem::forget(vm);
+        std::mem::forget(chunk);
+    }
+
+    /// Parser::make_constant with the constant pool pre-filled to N entries (N = 65535, 65536): a new
+    /// constant gets index N while N fits in the 16-bit operand, otherwise an error is recorded (and the
+    /// index is not silently truncated to N mod 65536 without one).
+    fn make_constant_case(n: usize) {
+        let mut vm = bare_vm();
+        let mut scanner = Scanner::from_source(String::new());
+        let mut path = Placed::new(ObjString::new(Gc::dangling(), "m", 1));
+        let mut chunk = chunk_with_code(0);
+        let mut constants: Vec<Value> = Vec::with_capacity(n + 4);
+        unsafe {
+            constants.set_len(n);
+        }
+        chunk.constants = constants;
+        unsafe { KANI_CHUNK = &mut chunk as *mut Chunk; }
+        let mut parser = bare_parser(&mut vm, &mut scanner, path.gc());
+        let x: f64 = kani::any();
+        let k = parser.make_constant(Value::Number(x)) as usize;
+        let had_error = !parser.errors.borrow().is_empty();
+        if n <= u16::MAX as usize {
+            assert!(!had_error && k == n, "a constant whose index fits is accepted with that index");
+            assert!(chunk.constants.len() == n + 1, "and appended");
+        } else {
+            assert!(had_error, "a constant whose index does not fit in 16 bits is rejected");
+        }
+        std::mem::forget(parser);
+        std::mem::forget(vm);
+        std::mem::forget(chunk);
+    }
+
+    #[kani::proof]
+    #[kani::unwind(10)]
+    #[kani::stub(std::collections::hash_map::RandomState::new, random_state_stub)]
+    #[kani::stub(std::fmt::format, fmt_stub)]
+    #[kani::stub(std::fmt::write, fmt_write_stub)]
+    #[kani::stub(Parser::chunk, Parser::chunk_stub)]
+    fn c04_make_constant_limit() {
+        make_constant_case(65535);
+        make_constant_case(65536);
+        kani::cover!(true, "reach-end");
     }
 
     /// Compiler::add_upvalue with the table pre-filled to N distinct captures (N = 255, 256) and a
